@@ -1009,6 +1009,10 @@ class HistogramBase(abc.ABC):
                 # products (and the squared factor in errors2) overflow.
                 factor_dtype = np.promote_types(factor_dtype, np.int64)
                 scalar = int(other)
+            elif factor_dtype.kind == "f" and factor_dtype.itemsize < 8:
+                # The same for np.float16 / np.float32 (300**2 is inf in float16)
+                factor_dtype = np.dtype(np.float64)
+                scalar = float(other)
             try:
                 self._coerce_dtype(factor_dtype)
             except ValueError as v:
@@ -1047,6 +1051,8 @@ class HistogramBase(abc.ABC):
         elif np.isscalar(other):
             if isinstance(other, np.integer):
                 other = int(other)  # other**2 must not wrap around in a narrow type
+            elif isinstance(other, np.floating) and other.dtype.itemsize < 8:
+                other = float(other)  # ... nor under- / overflow in float16 / float32
             inverse = 1 / other  # Fail (e.g. for zero) before anything is changed
             self._coerce_dtype(np.float64)
             frequencies = self.frequencies / other
